@@ -2,6 +2,7 @@ package e2
 
 import (
 	"fmt"
+	"math/big"
 	"sort"
 	"strings"
 	"testing"
@@ -15,6 +16,7 @@ import (
 	ledger "github.com/formancehq/ledger/internal"
 	"github.com/formancehq/ledger/internal/storage/common"
 	"github.com/formancehq/ledger/pkg/features"
+	"github.com/formancehq/ledger/verifharness/env"
 	"github.com/formancehq/ledger/verifharness/refmodel"
 	"github.com/formancehq/ledger/verifharness/stats"
 )
@@ -103,7 +105,10 @@ func flatten(pages [][]string) []string {
 }
 
 func (w *World) checkPagination(t *rapid.T, l *LState) (resource string, pagesSeen int) {
-	ps := uint64(rapid.IntRange(1, 4).Draw(t, "pageSize"))
+	return w.checkPaginationPS(t, l, uint64(rapid.IntRange(1, 4).Draw(t, "pageSize")))
+}
+
+func (w *World) checkPaginationPS(t *rapid.T, l *LState, ps uint64) (resource string, pagesSeen int) {
 	order := paginate.Order(paginate.OrderAsc)
 	if rapid.Bool().Draw(t, "desc") {
 		order = paginate.OrderDesc
@@ -321,6 +326,47 @@ func allZeroRows(w *World, l *LState, keys []string) bool {
 }
 
 const ruleC21 = "histories (postings creates, reverts, metadata writes), then per history 8 paginated walks: resource in {transactions by id, logs by id, accounts by address, volumes by account, volumes grouped by 1-2 address segments}, page size 1-4, both orders, optional generated filter, optional PIT; next cursors are followed to the end and previous cursors back to the first page; the concatenation must equal the reference list in order without duplicate or omission, and previous of page k must be page k-1; non-trivial = walk of >= 3 pages; distinct = by walk description + history"
+
+const ruleC21Large = "large listings: a ledger is loaded with 105-260 transactions (one new account each, a few assets, some metadata and reverts), then 6 walks as above with page sizes drawn from {50, 99, 100, 101, 102, 128, 150, n-1, n, n+1, 1000} (n = number of transactions), so that pages larger than 100 items, the page boundary at the last item and single-page answers are all reached; non-trivial = walk with a page size above 100 over more than 101 entities; distinct = by walk description + size"
+
+// TestC21Large covers page sizes the histories above never reach (the storage layer takes any page size; the v1 API lets
+// clients ask for up to 1000 items).
+func TestC21Large(t *testing.T) {
+	st := stats.New("C21", "exploration", ruleC21Large, assumePgsim)
+	defer st.Write(t)
+	n := stats.N(6, 25)
+	st.Set("requested_checks_large", n)
+	stats.Check(t, n, 2121, func(rt *rapid.T) {
+		w := NewWorld(rt, st, env.Options{}, "C21")
+		defer w.Close()
+		l := w.AddLedger("l1", "b1", GenFeatures(rt))
+		ntx := rapid.IntRange(105, 260).Draw(rt, "transactions")
+		assets := []string{"USD/2", "EUR", "COIN"}
+		for i := 0; i < ntx; i++ {
+			r := TxRequest{Postings: ledger.Postings{ledger.NewPosting("world", fmt.Sprintf("u:%03d", i), assets[i%3], big.NewInt(int64(1+i%7)))}}
+			if i%10 == 0 {
+				r.Metadata = map[string]string{"k": "v"}
+			}
+			if out := w.CreateTx(l, r); out.Kind != ErrNone {
+				w.harness("loading transaction %d failed: %v", i, out.Err)
+			}
+			if i%40 == 39 {
+				w.Revert(l, RevertRequest{ID: uint64(i), Force: true})
+			}
+			w.Env.Sim.AdvanceClock(1e6)
+		}
+		total := len(l.M.Txs)
+		sizes := []int{50, 99, 100, 101, 102, 128, 150, total - 1, total, total + 1, 1000}
+		for i := 0; i < 6; i++ {
+			ps := uint64(rapid.SampledFrom(sizes).Draw(rt, "largePageSize"))
+			res, pages := w.checkPaginationPS(rt, l, ps)
+			st.Case(fmt.Sprint(ntx, res, ps, pages, i), ps > 100 && total > 101, func() any {
+				return map[string]any{"resource": res, "pageSize": ps, "pages": pages, "transactions": total}
+			}, "resource:"+res, fmt.Sprintf("large-pageSize:%d", ps))
+		}
+		st.Add("completed_checks_large", 1)
+	})
+}
 
 func TestC21(t *testing.T) {
 	st := stats.New("C21", "exploration", ruleC21, assumePgsim, "entities whose filter evaluation falls in the class of known finding C20-null-under-not make the walk's content comparison be skipped (cursor mechanics are still checked)")
